@@ -720,6 +720,9 @@ func vf08Clamp(v, lo, hi int) int {
 
 // vf08Size draws a length in [lo,hi] with bias to both ends and to the 8-bit carry points.
 func vf08Size(t *rapid.T, label string, lo, hi int) int {
+	if hi <= lo {
+		return lo
+	}
 	switch rapid.IntRange(0, 11).Draw(t, label+"_k") {
 	case 0:
 		return lo
@@ -1322,7 +1325,7 @@ func vf08DirectedCases() []*vf08Case {
 		add(&FakePreSharedKeyExtension{OmitEmptyPsk: omit, Binders: [][]byte{fill(32)}}, false, 32)
 		add(&FakePreSharedKeyExtension{OmitEmptyPsk: omit, Identities: []PskIdentity{id(138, 0xdeadbeef)}, Binders: [][]byte{fill(32)}}, false, 138, 32)
 		add(&FakePreSharedKeyExtension{OmitEmptyPsk: omit, Identities: []PskIdentity{id(0, 0), id(250, 1<<31)}, Binders: [][]byte{fill(48), fill(32), fill(48)}}, false, 0, 250, 48, 32, 48)
-		add(&FakePreSharedKeyExtension{OmitEmptyPsk: omit, Identities: []PskIdentity{id(65535-4-2-6-2-33, 7)}, Binders: [][]byte{fill(32)}}, false, 65535-4-2-6-2-33, 32)
+		add(&FakePreSharedKeyExtension{OmitEmptyPsk: omit, Identities: []PskIdentity{id(65492, 7)}, Binders: [][]byte{fill(32)}}, false, 65492, 32)
 		add(&UtlsPreSharedKeyExtension{OmitEmptyPsk: omit}, false)
 		u := &UtlsPreSharedKeyExtension{OmitEmptyPsk: omit}
 		u.InitializeByUtls(&SessionState{version: VersionTLS13, cipherSuite: TLS_AES_256_GCM_SHA384}, fill(48), fill(48), []PskIdentity{id(200, 99)})
@@ -1348,14 +1351,12 @@ func TestVerifC08Directed(t *testing.T) {
 	st := vfNewStats(t, "C08")
 	for i, c := range vf08DirectedCases() {
 		st.Class("directed")
-		for _, unpadded := range []int{0, 255, 256, 300, 507, 508, 511, 512} {
-			if _, isPad := c.ext.(*UtlsPaddingExtension); !isPad && unpadded != 300 {
-				continue
-			}
+		unps := []int{300}
+		if _, isPad := c.ext.(*UtlsPaddingExtension); isPad {
+			unps = []int{0, 255, 256, 300, 507, 508, 511, 512}
+		}
+		for _, unpadded := range unps {
 			cc := *c
-			if unpadded != 300 || i < 0 {
-				cc.ext = &UtlsPaddingExtension{PaddingLen: c.ext.(*UtlsPaddingExtension).PaddingLen, WillPad: c.ext.(*UtlsPaddingExtension).WillPad}
-			}
 			vf08RunCase(st, t, &cc, unpadded, []int{10, 100, 1000, 10000, 65535}, 1+i%7)
 		}
 	}
@@ -1434,10 +1435,6 @@ func TestVerifC08TypeListComplete(t *testing.T) {
 	}
 	if len(gone) > 0 {
 		t.Logf("note: types known to the harness but no longer in the tree: %v", gone)
-	}
-	// every generated type must be known to the reference encoder and constructible by name
-	for _, g := range vf08Gens {
-		_ = g
 	}
 }
 
